@@ -1,5 +1,6 @@
 import NomtModel.Store.ImgCheck
 import NomtModel.Store.ImgLemmas
+import NomtModel.Store.PageIdLemmas
 import NomtModel.Store.ConstantsFormats
 import NomtModel.Store.ConstantsAlloc
 /-!
@@ -69,6 +70,36 @@ theorem T16_lookup (img : Image) (st : Stats) (h : wfImage img = .ok st) (k : Na
 
 /-- a concrete manifest round trip, evaluated by the kernel -/
 example : decodeMeta (encodeMeta sampleMeta) = some sampleMeta := by decide
+
+/-! ## page ids -/
+
+/-- T16.rt (page id): `PageId::encode` as implemented (for every child index `c`: `word += c + 1;
+word <<= 6`, 256-bit word) followed by the Lean label decoder of the `ht` monitor gives the path
+back, for every path of child indices `< 64` of depth `≤ MAX_PAGE_DEPTH = 42` whose encoding fits
+the word — which is every path of depth `≤ 41` -/
+theorem T16_rt_page_id (p : List Nat) (hc : ∀ c ∈ p, c < 64) :
+    (p.length ≤ MAX_PAGE_DEPTH → 64 * pageIdNum p < 2 ^ 256 → decodePageId (encodePageId p) = some p) ∧
+    (p.length ≤ 41 → decodePageId (encodePageId p) = some p) :=
+  ⟨fun hl hfit => decode_encode_pageId p hc hl hfit,
+   fun hl => decode_encode_pageId p hc (by unfold MAX_PAGE_DEPTH; omega) (encode_fits_of_depth_le_41 p hc hl)⟩
+
+/-- T16.rt (page id, converse): a label the monitor accepts IS the encoding of the decoded path,
+whose depth is `≤ 42` and whose child indices are `< 64`; so two accepted labels are equal iff their
+page ids are -/
+theorem T16_page_id_decode_sound (label : Nat) (p : List Nat) (h : decodePageId label = some p) :
+    encodePageId p = label ∧ p.length ≤ MAX_PAGE_DEPTH ∧ ∀ c ∈ p, c < 64 :=
+  decodePageId_sound label p h
+
+/-- depth 42: the deepest left-most page still fits the word and round-trips; but a depth-42 path
+whose first child index `c₁` has `(c₁ + 1) % 16 = 0` loses exactly its first summand in the 256-bit
+word of `encode` (`(c₁+1)·2^252·… ≡ 0`), so its label IS the label of the depth-41 page obtained by
+dropping the first child — e.g. the deepest right-most page gets the label of `[63; 41]`.  The
+hypothesis `64 * pageIdNum p < 2^256` of T16.rt is therefore needed; such pages are never stored
+(`T16_const_last_level_elided`), so no stored label is ambiguous. -/
+example : decodePageId (encodePageId (List.replicate 42 0)) = some (List.replicate 42 0) ∧
+    encodePageId (List.replicate 42 63) = encodePageId (List.replicate 41 63) ∧
+    encodePageId (15 :: List.replicate 41 7) = encodePageId (List.replicate 41 7) ∧
+    decodePageId (encodePageId [0]) = some [0] ∧ encodePageId [0] = 64 ∧ decodePageId 1 = none := by decide
 
 /-! ## the decoders' constants are the constants of the Rust source
 
